@@ -185,10 +185,24 @@ impl<T: ?Sized> RwLock<T> {
     }
 
     fn read_unlock(&self) {
+        // this runs in the drop of a read guard, possibly while a cancel unwinds the
+        // coroutine: the reader mutex must block then, not raise a second cancel panic
+        let cancel = if crate::coroutine_impl::is_coroutine() {
+            Some(crate::coroutine_impl::current_cancel_data())
+        } else {
+            None
+        };
+        if let Some(c) = cancel.as_ref() {
+            c.disable_cancel();
+        }
         let mut r = self.rlock.lock().expect("rwlock read_unlock");
         *r -= 1;
         if *r == 0 {
             self.unlock();
+        }
+        drop(r);
+        if let Some(c) = cancel.as_ref() {
+            c.enable_cancel();
         }
     }
 
